@@ -167,7 +167,7 @@ def is_collider(
     return (
         _has_either_edge(graph, left, middle)
         and _has_either_edge(graph, right, middle)
-        and middle in conditions
+        and not conditions.isdisjoint(graph.descendants_inclusive(middle))
     )
 
 
